@@ -116,6 +116,14 @@ def roundtrip_case(rnd, pool, n_if):
     f = roundtrip_check(built, names)
     if f:
         return f
+    # a relay: the interfaces obtained by parsing are exported again (by another object) - their XML, parsed, is still the declaration
+    from txdbus import introspection
+    xml = introspection.generateIntrospectionXML('/obj', {'/obj': FakeObject([b[0] for b in built])})
+    parsed = {i.name: i for i in introspection.getInterfacesFromXML(xml, True)}
+    if all(n in parsed for n in names):
+        f = roundtrip_check([(parsed[n], decl) for (_i, decl), n in zip(built, names)], names)
+        if f:
+            return 'interfaces obtained from the XML and exported again: ' + f
     # the definitions change after they have been introspected once: the next document describes them as they are now
     for round_ in range(2):
         hist = [(name, mutate_interface(rnd, iface, decl, pool)) for (iface, decl), name in zip(built, names) if rnd.random() < 0.8]
@@ -325,6 +333,21 @@ def class_hierarchy_case():
     """objects of a base class and of a class derived from it, each declaring interfaces of its own, introspected in either
     order: every object reports exactly the interfaces of its own class hierarchy"""
     from txdbus import introspection, interface, objects
+    # a derived class that declares an interface under the NAME its base class uses, with more members: the object is described - and
+    # parsed back - with the derived declaration (the one calls are dispatched on)
+    i_base = interface.DBusInterface('org.verif.Player', interface.Method('Play'), noRegister=True)
+    i_more = interface.DBusInterface('org.verif.Player', interface.Method('Play'), interface.Method('Seek', arguments='x'), interface.Method('OpenUri', arguments='s'), noRegister=True)
+    PBase = type('XPlayer', (objects.DBusObject,), {'dbusInterfaces': [i_base]})
+    PMore = type('XSeekablePlayer', (PBase,), {'dbusInterfaces': [i_more]})
+    interface.DBusInterface.knownInterfaces.pop('org.verif.Player', None)
+    try:
+        o = PMore('/player')
+        xml = introspection.generateIntrospectionXML('/player', {'/player': o})
+        got = [sorted(i.methods) for i in introspection.getInterfacesFromXML(xml, False) if i.name == 'org.verif.Player']
+        if not got or any(g != ['OpenUri', 'Play', 'Seek'] for g in got):
+            return 'a derived class re-declaring the interface name of its base with more members is introspected as %r, it declares OpenUri, Play, Seek' % (got,)
+    finally:
+        interface.DBusInterface.knownInterfaces.pop('org.verif.Player', None)
     for order in ((0, 1), (1, 0)):
         ib = interface.DBusInterface('org.verif.BaseI', interface.Method('B', arguments='s'), noRegister=True)
         idr = interface.DBusInterface('org.verif.DerivedI', interface.Method('D', returns='ai'), interface.Property('P', 'u'), noRegister=True)
